@@ -374,6 +374,36 @@ class Corners(Degenerate):
         return ['params=%s' % ' '.join(case['extra']), 'mode=%s' % case['mode']] + [k for k in Degenerate.classify(self, case, out) if 'records=' in k]
 
 
+class ParamFuzz(Degenerate):
+    """random combinations of parameter values (each option present with probability 1/2, values from small/default/large sets inside the
+    domain the property allows: minPeakDistance >= primaryResolution, unmatchedPenalty <= 0 < minScore) on the degenerate and ordinary data sets"""
+    name = 'param_fuzz'
+    n_quick, n_thorough = 24, 320
+
+    def gen(self, rng, tier):
+        cases = []
+        for k in range(self.n_quick if tier == 'quick' else self.n_thorough):
+            r1 = rng.choice([100, 350, 700, 1400, 1400, 2800, 5000]); r2 = rng.choice([10, 50, 100, 100, 200, 1000])
+            p = ['-b1', rng.choice([0, 1, 1, 2, 5]), '-p', rng.choice([1, 2, 3, 3, 6, 12]), '-r2', r2, '-b2', rng.choice([0, 1, 4, 4, 10]),
+                 '-ma', rng.choice([0, 100, 1000, 16000, 16000, 50000]), '-pt', rng.choice([0, 0.5, 5, 27, 27, 100]),
+                 '-d', rng.choice([0, 100, 1500, 1500, 5000, 20000]), '-sp', rng.choice([1, 100, 1000, 1000]), '-dp', rng.choice([0, 0.5, 1, 1, 2]),
+                 '-su', rng.choice([0, -1, -250, -250, -1000]), '-ms', rng.choice([1, 500, 1000, 1000, 3000]), '-bs', rng.choice([0, 1, 900, 1200, 5000]),
+                 '-diff', rng.choice([0, 1000, 100000, 100000]), '-sj', rng.choice([0, 0.5, 1, 1, 2]), '-ss', rng.choice([0, 1])]
+            extra = []
+            for i in range(0, len(p), 2):
+                if rng.random() < 0.5:
+                    extra += [p[i], str(p[i + 1])]
+            if rng.random() < 0.6:     # resolution and peak distance together, so that minPeakDistance >= primaryResolution always holds
+                extra += ['-r1', str(r1), '-md', str(max(r1, 1400) * rng.choice([1, 2, 5, 14, 40]) + rng.choice([0, 1, 13]))]
+            ds = rng.choice(['mixed', 'mixed', 'degenerate_only', 'duplicates', 'indels', 'refs_mixed_degenerate', 'edge_alignments', 'some_maps_without_labels'])
+            cases.append(dict(ds=ds, mode=rng.choice(MODES), cli=False, extra=extra))
+        return cases
+
+    def classify(self, case, out):
+        return ['dataset=%s' % case['ds'], 'mode=%s' % case['mode'], 'options_set=%d' % (len(case['extra']) // 2)] + \
+               [k for k in Degenerate.classify(self, case, out) if 'records=' in k] + ['option ' + o for o in case['extra'][::2]]
+
+
 # ================================================================================================ (b) first/second pass crash search
 def gen_dense_long(rng):
     """a dense lattice query with one diagonal jump; first-pass peaks on one or both diagonals, second-pass peaks on the other"""
@@ -738,4 +768,4 @@ class AlignErrors(Stream):
         return repr((case['ref'], case['qry'], case['peaks'], case['rev'], sorted(case['P'].items())))
 
 
-STREAMS = [Degenerate(), Corners(), MultiCrash(), AlignErrors()]
+STREAMS = [Degenerate(), Corners(), ParamFuzz(), MultiCrash(), AlignErrors()]
